@@ -29,6 +29,7 @@ func propC03() *Property {
 			{ID: "C03.R5", Title: "status line recogniser shape", Floor: 4, Run: c03R5},
 			{ID: "C03.R6", Title: "cache key completeness; no budget-dependent outcome cached", Floor: 6, Run: c03R6},
 			{ID: "C03.R7", Title: "status and header recognisers see whole lines only", Floor: 3, Run: wholeLines},
+			{ID: "C03.R8", Title: "concurrent fetches are shared only between identical URLs", Floor: 1, Run: c03R8},
 		},
 	}
 }
@@ -290,9 +291,9 @@ func c03Success(c *Ctx, g *getShape, ret *ssa.Return) {
 	// the status line text comes from the connection's reader
 	var reader ssa.Value
 	if g.statusCall != nil {
-		if ex, ok := g.statusCall.Call.Args[0].(*ssa.Extract); ok {
-			if rc, ok := ex.Tuple.(*ssa.Call); ok && isLibCall(&rc.Call, "bufio", "Reader", "ReadString") {
-				reader = rc.Call.Args[0]
+		if rc := lineReadCall(g.statusCall.Call.Args[0]); rc != nil {
+			{
+				reader = unwrapLoad(rc.Call.Args[0])
 				if e, _ := errorResult(rc); e == nil || !knownNil(e, b) {
 					c.bad(fname+"/success:status-read", pos, fname, "the read of the status line is not error-checked before success")
 				} else {
@@ -1256,6 +1257,24 @@ func constStringSlice(a ssa.Value) ([]string, bool) {
 	return out, len(out) > 0
 }
 
+// lineReadCall: v is the text of a line read from a bufio.Reader — result #0
+// of ReadString or ReadBytes, possibly converted to a string; returns the read.
+func lineReadCall(v ssa.Value) *ssa.Call {
+	v = unwrapLoad(v)
+	if cv, ok := v.(*ssa.Convert); ok {
+		v = unwrapLoad(cv.X)
+	}
+	ex, ok := v.(*ssa.Extract)
+	if !ok || ex.Index != 0 {
+		return nil
+	}
+	rc, ok := ex.Tuple.(*ssa.Call)
+	if !ok || !(isLibCall(&rc.Call, "bufio", "Reader", "ReadString") || isLibCall(&rc.Call, "bufio", "Reader", "ReadBytes")) {
+		return nil
+	}
+	return rc
+}
+
 // wholeLines (C03.R7 and C05.R5): the anchored recognisers of the response head
 // (status line, Content-Type, Location, end of head) are sound only on strings
 // that start at a line start and end at its line feed. Every string they are
@@ -1360,4 +1379,51 @@ func wholeLines(c *Ctx) {
 func isStringType(t types.Type) bool {
 	b, ok := t.Underlying().(*types.Basic)
 	return ok && b.Info()&types.IsString != 0
+}
+
+// c03R8: singleflight hands the first caller's result to every caller that
+// arrives with the same key while the fetch is in flight. The key of every
+// Group.Do in the module must therefore be the complete serialisation of the
+// URL being fetched (uri.String()): a key made of components lets a fetch of
+// another URL (same path, other query) receive this one's document and source.
+func c03R8(c *Ctx) {
+	P := c.P
+	n := 0
+	for _, fn := range P.Funcs {
+		fname := FuncName(fn)
+		eachInstr(fn, func(_ *ssa.BasicBlock, _ int, in ssa.Instruction) {
+			call, ok := in.(*ssa.Call)
+			if !ok || !(isLibCall(&call.Call, "golang.org/x/sync/singleflight", "Group", "Do") || isLibCall(&call.Call, "golang.org/x/sync/singleflight", "Group", "DoChan")) {
+				return
+			}
+			n++
+			okKey := false
+			if kc, ok := unwrapLoad(call.Call.Args[1]).(*ssa.Call); ok && isLibCall(&kc.Call, "net/url", "URL", "String") {
+				// the URL whose String() is the key must be the URL that is fetched inside
+				keyURL := unwrapLoad(kc.Call.Args[0])
+				fetched := false
+				var cl *ssa.Function
+				switch f := call.Call.Args[2].(type) {
+				case *ssa.MakeClosure:
+					cl = f.Fn.(*ssa.Function)
+				case *ssa.Function:
+					cl = f
+				}
+				if cl != nil {
+					get := P.Func("servitor/jtp", "Get")
+					eachInstr(cl, func(_ *ssa.BasicBlock, _ int, in2 ssa.Instruction) {
+						if gc, ok := in2.(*ssa.Call); ok && gc.Call.StaticCallee() == get {
+							if resolveCell(unwrapLoad(gc.Call.Args[0])) == resolveCell(keyURL) || path(gc.Call.Args[0]) == path(keyURL) {
+								fetched = true
+							}
+						}
+					})
+				}
+				okKey = fetched
+			}
+			c.check(okKey, fname+"/in-flight-key", P.InstrPos(in), fname, "in-flight fetches are shared by uri.String() of the URL that is fetched",
+				"the key under which in-flight fetches are shared is not the complete URL being fetched: a concurrent fetch of another URL (same path, other query or fragment) receives this one's document and source")
+		})
+	}
+	c.check(n >= 1, "servitor/client.FetchURL/coalescing", P.Pos(P.Func("servitor/client", "FetchURL").Pos()), "servitor/client.FetchURL", fmt.Sprintf("%d singleflight call sites", n), "fetches are no longer coalesced through singleflight (informational)")
 }
